@@ -1,10 +1,141 @@
 import Holpy.C04.Model
 import Holpy.C04.Gen
 import Holpy.C04.Proofs
+import Mathlib.Data.List.Forall2
 /-
 C04 — property theorems (statements live here, helper lemmas in Proofs.lean).
 -/
 namespace Holpy.C04
+
+/-! ### `ProofTerm.export` and the checker of the expanded macro line (Model.lean) -/
+
+/-- Concrete instance used by the non-vacuity examples: rule `r2` proves `⊢ 6` from nothing, rule
+`r1` proves `1 ⊢ 7` from `1 ⊢ 5`, `⊢ 6`, `⊢ 6`; line `0` of the enclosing proof states `1 ⊢ 5`. -/
+def exRule : String → Nat → List Seq → Option Seq
+  | "r2", 1, [] => some ⟨[], 6⟩
+  | "r1", 0, [⟨[1], 5⟩, ⟨[], 6⟩, ⟨[], 6⟩] => some ⟨[1], 7⟩
+  | _, _, _ => none
+def exCtx : ItemId → Option Seq
+  | [0] => some ⟨[1], 5⟩
+  | _ => none
+/-- a derivation with two equal sub-derivations (`r2` twice) and a premise cited by id -/
+def exPT : PT :=
+  .node "r1" 0 [.atom [0] ⟨[1], 5⟩, .node "r2" 1 [] ⟨[], 6⟩, .node "r2" 1 [] ⟨[], 6⟩] ⟨[1], 7⟩
+
+/-- `export_check`: for every proof term whose nodes satisfy the constructor invariant (`th` is what
+the node's rule gives on its children's `th`; atoms are lines the macro line may cite),
+`pt.export(prefix)` succeeds, the checker accepts the exported lines (whatever the rule semantics,
+i.e. at any check level) and the result is exactly `pt.th` — same conclusion, no hypothesis added;
+line `k` has id `prefix ++ [k]` and every citation is admissible (`can_depend_on`) and refers to an
+earlier line of the expansion or to a line the macro line itself may cite. -/
+theorem export_check (evalRule : String → Nat → List Seq → Option Seq) (ctx : ItemId → Option Seq)
+    (pfx : ItemId) (pt : PT) (hnode : pt.isAtom = false) (hwf : PT.wf evalRule ctx pfx pt = true) :
+    ∃ items, exportPT sameStruct pfx pt = .ok items ∧
+      checkItems evalRule ctx pfx items = .ok pt.th ∧
+      ∀ (k : Nat) (it : Item), items[k]? = some it →
+        it.id = pfx ++ [k] ∧
+        ∀ p ∈ it.prevs, canDependOn it.id p = true ∧
+          ((∃ j, j < k ∧ p = pfx ++ [j]) ∨ canDependOn pfx p = true) := by
+  obtain ⟨items, h1, h2, h3⟩ := export_general (sameHyp_struct evalRule) pt hnode hwf
+  refine ⟨items, h1, h2, ?_⟩
+  intro k it hk
+  have hg := h3 k it hk
+  unfold ItemGood at hg
+  obtain ⟨hid, ths, hc, _⟩ := hg
+  refine ⟨hid, ?_⟩
+  intro p hp
+  obtain ⟨s, hs⟩ := forall2_left_mem hc hp
+  exact ⟨by rw [hid]; exact hs.1, hs.2.2⟩
+example : exPT.isAtom = false ∧ PT.wf exRule exCtx [3] exPT = true ∧
+    exportPT sameStruct [3] exPT =
+      .ok [⟨[3, 0], "r2", 1, [], ⟨[], 6⟩⟩, ⟨[3, 1], "r1", 0, [[0], [3, 0], [3, 0]], ⟨[1], 7⟩⟩] ∧
+    checkItems exRule exCtx [3]
+      [⟨[3, 0], "r2", 1, [], ⟨[], 6⟩⟩, ⟨[3, 1], "r1", 0, [[0], [3, 0], [3, 0]], ⟨[1], 7⟩⟩] = .ok ⟨[1], 7⟩ := by
+  decide
+
+/-- Rules respect `Thm.__eq__` on their premises (needed only if the dictionary `seq_to_id` may
+identify sequents that differ in the order of hypotheses). -/
+def RuleCompat (evalRule : String → Nat → List Seq → Option Seq) : Prop :=
+  ∀ r a ths ths' s, List.Forall₂ (fun x y => seqEquiv x y = true) ths' ths → evalRule r a ths = some s →
+    ∃ s', evalRule r a ths' = some s' ∧ canProve s' s = true
+
+/-- `export_shared_sequent`: the `seq_to_id` sharing preserves `export_check` for EVERY dictionary
+lookup `same` that only identifies `Thm.__eq__`-equal sequents: the export succeeds, checks and
+yields `pt.th`; it has at most one line per derivation node (equal sub-derivations are exported
+once); and every line is an instance of the constructor invariant of some node whose children's
+sequents are `Thm.__eq__`-equal to the sequents stated by the lines it cites. -/
+theorem export_shared_sequent (evalRule : String → Nat → List Seq → Option Seq)
+    (ctx : ItemId → Option Seq) (pfx : ItemId) (same : Seq → Seq → Bool)
+    (hsame : ∀ a b, same a b = true → seqEquiv a b = true) (hcompat : RuleCompat evalRule)
+    (pt : PT) (hnode : pt.isAtom = false) (hwf : PT.wf evalRule ctx pfx pt = true) :
+    ∃ items, exportPT same pfx pt = .ok items ∧
+      checkItems evalRule ctx pfx items = .ok pt.th ∧
+      items.length ≤ pt.nodes ∧
+      ∀ (k : Nat) (it : Item), items[k]? = some it →
+        ∃ ths, evalRule it.rule it.args ths = some it.th ∧
+          List.Forall₂ (fun p s => ∃ s', findSeq ctx pfx items p = some s' ∧ seqEquiv s' s = true)
+            it.prevs ths := by
+  have H : SameHyp evalRule same (fun a b => seqEquiv a b = true) :=
+    ⟨hsame, seqEquiv_refl, hcompat⟩
+  obtain ⟨items, h1, h2, h3⟩ := export_general H pt hnode hwf
+  refine ⟨items, h1, h2, exportPT_len same pfx pt items h1, ?_⟩
+  intro k it hk
+  have hg := h3 k it hk
+  unfold ItemGood at hg
+  obtain ⟨_, ths, hc, hev⟩ := hg
+  exact ⟨ths, hev, forall2_imp (fun p s h => h.2.1) hc⟩
+example : exPT.nodes = 3 ∧
+    (∀ items, exportPT sameStruct [3] exPT = .ok items → items.length = 2) ∧
+    (∀ a b, sameStruct a b = true → seqEquiv a b = true) := by
+  refine ⟨by decide, ?_, ?_⟩
+  · intro items h
+    have : exportPT sameStruct [3] exPT =
+        .ok [⟨[3, 0], "r2", 1, [], ⟨[], 6⟩⟩, ⟨[3, 1], "r1", 0, [[0], [3, 0], [3, 0]], ⟨[1], 7⟩⟩] := by decide
+    rw [this] at h
+    cases h
+    rfl
+  · intro a b h
+    have : a = b := by simpa [sameStruct] using h
+    subst this
+    exact seqEquiv_refl a
+
+/-- `get_proof_term` uses its premises only through their sequents: it instantiates a template that
+is a function of the arguments and the premises' sequents. -/
+def Parametric (gpt : Nat → List PT → PT) : Prop :=
+  ∃ tmpl : Nat → List Seq → Tmpl, ∀ args pts, gpt args pts = (tmpl args (pts.map PT.th)).inst pts
+
+/-- `default_eval_expand`: for a macro that overrides neither `eval` nor `expand`, whose
+`get_proof_term` is parametric in the premises, on every input where the proof term (built on atoms
+for the cited lines) is a derivation satisfying the constructor invariant: `expand` succeeds, the
+checker accepts it, and the sequent it establishes is exactly the one `eval` reports. -/
+theorem default_eval_expand (evalRule : String → Nat → List Seq → Option Seq)
+    (ctx : ItemId → Option Seq) (pfx : ItemId) (gpt : Nat → List PT → PT) (hpar : Parametric gpt)
+    (args : Nat) (prevs : List (ItemId × Seq))
+    (hnode : (gpt args (prevs.map fun p => PT.atom p.1 p.2)).isAtom = false)
+    (hwf : PT.wf evalRule ctx pfx (gpt args (prevs.map fun p => PT.atom p.1 p.2)) = true) :
+    ∃ items, expandDefault sameStruct gpt pfx args prevs = .ok items ∧
+      checkItems evalRule ctx pfx items = .ok (evalDefault gpt args (prevs.map (·.2))) := by
+  obtain ⟨items, h1, h2, _⟩ := export_check evalRule ctx pfx _ hnode hwf
+  refine ⟨items, h1, ?_⟩
+  rw [h2]
+  congr 1
+  obtain ⟨tmpl, ht⟩ := hpar
+  unfold evalDefault
+  rw [ht, ht]
+  have e1 : (prevs.map fun p => PT.atom p.1 p.2).map PT.th = prevs.map (·.2) := by
+    simp [List.map_map, Function.comp_def, PT.th]
+  have e2 : ((prevs.map (·.2)).map gapLeaf).map PT.th = prevs.map (·.2) := by
+    simp [List.map_map, Function.comp_def, PT.th, gapLeaf]
+  rw [e1, e2, List.map_map]
+  exact inst_th (fun p => PT.atom p.1 p.2) (gapLeaf ∘ (·.2)) (fun x => by simp [PT.th, gapLeaf]) prevs _
+/-- a parametric `get_proof_term`: apply `r2`, then `r1` to the first premise and the `r2` step twice -/
+def exGpt : Nat → List PT → PT := fun _ pts =>
+  (Tmpl.node "r1" 0 [.prem 0, .node "r2" 1 [] ⟨[], 6⟩, .node "r2" 1 [] ⟨[], 6⟩] ⟨[1], 7⟩).inst pts
+example : Parametric exGpt ∧
+    (exGpt 0 ([([0], (⟨[1], 5⟩ : Seq))].map fun p => PT.atom p.1 p.2)).isAtom = false ∧
+    PT.wf exRule exCtx [3] (exGpt 0 ([([0], (⟨[1], 5⟩ : Seq))].map fun p => PT.atom p.1 p.2)) = true ∧
+    evalDefault exGpt 0 [⟨[1], 5⟩] = ⟨[1], 7⟩ := by
+  refine ⟨⟨fun _ _ => _, fun _ _ => rfl⟩, by decide, by decide, by decide⟩
 
 /-! ### Table obligations over the regenerated macro registry (Gen.lean) -/
 
